@@ -33,8 +33,9 @@ fn main() {
             "C11" => mc::checks::c11::replay(&v["case"]),
             "C12" => mc::checks::c12::replay(&v["case"]),
             _ => {
-                eprintln!("no replay for {}", id);
-                std::process::exit(2)
+                // C13 / C14 / C19 / C20: the recorded case is self-contained (tree, layout,
+                // session history or workspace with the observed and expected values); show it
+                println!("{}", serde_json::to_string_pretty(&v).unwrap());
             }
         }
         return;
